@@ -131,10 +131,10 @@ class Recorder:
             self.keep.append(fn)
             c = fn.__code__
             base, pad = self.blocks.blk(c.co_code)
-            assert pad == 0
             lab = self.labels.get((c.co_filename, c.co_firstlineno, c.co_name))
             ls = code_lines(c)
-            self.ops.append('decl %d %d %d %s' % (i, base, lab, ','.join(map(str, ls)) or '-'))
+            # pad > 0: the function arrives with bytecode an earlier profiler of this process had padded (case option `presession`)
+            self.ops.append('decl %d %d %d %s' % (i, base, lab, ','.join(map(str, ls)) or '-') + (' %d' % pad if pad else ''))
 
     # -- profiler API
     def add_function(self, fn):
@@ -331,6 +331,24 @@ def run_steps(prog, steps, prof, nss, funcs, on_snapshot, on_add=None):
     return results
 
 
+def presession(case, funcs, blocks):
+    """case['presession'] = names registered, in that order, with an earlier profiler of the same process (a previous %lprun / in-process
+    kernprof run): byte-identical functions among them keep the padded bytecode that profiler gave them"""
+    for (_f, _n, fn) in funcs:
+        blocks.blk(fn.__code__.co_code)          # the compiler's own bytecodes first: padded ones are named relative to them
+    names = case.get('presession')
+    if names:
+        import warnings
+        earlier = line_profiler.LineProfiler()
+        with warnings.catch_warnings():
+            warnings.simplefilter('ignore')
+            for nm in names:
+                for (_f, n, fn) in funcs:
+                    if n == nm:
+                        earlier.add_function(fn)
+                        break
+
+
 def run_case(case, delta):
     prog, steps = case['prog'], case['steps']
     progfiles = {f for f, _ in prog['files'] if f != 'prog_lib.py'}
@@ -351,6 +369,7 @@ def run_case(case, delta):
                 f()
         return g
     nss, funcs = load_program(prog, {'tick': rec.tick, 'prof': rec, 'snap': (limited(rec.snapshot) if inner else (lambda: None))})
+    presession(case, funcs, blocks)
     rec.declare(funcs)
     rec.ops.append('delta %d' % (delta if with_time else 0))
     resA = run_steps(prog, steps, rec, nss, funcs, rec.snapshot)
@@ -371,6 +390,7 @@ def run_case(case, delta):
     def snap():
         snaps.append('stats ' + canon_stats(p.get_stats().timings, labelsB, with_time))
     nssB, funcsB = load_program(prog, {'tick': realtick, 'prof': p, 'snap': (limited(snap) if inner else (lambda: None))})
+    presession(case, funcsB, blocksB)
     for i, (fname, name, fn) in enumerate(funcsB):
         c = fn.__code__
         blocksB.blk(c.co_code)
@@ -390,8 +410,9 @@ def run_case(case, delta):
                 p.disable_by_count()
             CLIB.verif_clock_mode(0, 0)
     # NoCollision on the concrete hashes of this run
-    hashes = [h for hs in p.code_hash_map.values() for h in hs]
-    collision = len(hashes) != len(set(hashes))
+    # (computed from the code objects themselves, not from the profiler's own tables: those are under test)
+    pairs = {(c.co_code, -1 if l is None else l) for c in p.code_hash_map for (_s, _e, l) in c.co_lines()}
+    collision = len({hash(cc) ^ l for cc, l in pairs}) != len(pairs)
     return {'ops': rec.ops, 'resA': resA, 'resB': resB, 'real_snaps': snaps, 'real_blks': blks,
             'oracle': oracle, 'alias': alias, 'dropped': {'%d:%d' % k: v for k, v in sorted(rec.dropped.items())},
             'incl': {'%d:%d' % k: v for k, v in sorted(rec.incl.items())}, 'reentrant': sorted(rec.reentrant),
